@@ -3,7 +3,7 @@
    Models: Dec/StdBind.v (encoding/json), Dec/SonicBind.v (sonic), Dec/FieldMap.v, Dec/Range.v, Dec/Trailing.v. *)
 From Coq Require Import NArith ZArith List Bool String.
 From SV.Dec Require Import Ty Val Parse Text Num Common FieldMap FieldMapProofs FieldLookup Range Trailing StdBind SonicBind
-  DecProofs Witness.
+  DecProofs OptProofs DecProofs2 Witness Witness2.
 Import ListNotations.
 Open Scope string_scope.
 
@@ -81,8 +81,9 @@ Print Assumptions C01_trailing_spec.
    nested arbitrarily), every strict document whose strings decode identically under both unquoters, whose keys
    decode to ASCII and which contains no number spelled -0, every initial value, every option set (UseNumber,
    UseInt64, DisallowUnknownFields, ValidateString or not) and every hash function: same error-or-not, same value.
-   `_partial`: float32, []byte, maps, `,string` fields and the RawMessage / Unmarshaler / TextUnmarshaler leaves are
-   outside (each has a refutation below or is left to the differential run). *)
+   `_partial`: float32, []byte and the RawMessage / Unmarshaler / TextUnmarshaler leaves are outside (each has a
+   refutation below or is left to the differential run); maps and `,string` fields are in
+   C01_bind_agree_maps_quoted below, under the no-collision discipline. *)
 Theorem C01_bind_agree_partial : forall (h : bytes -> N) (o : opts) t, frag t = true ->
   forall j v, strict_jv j = true -> guards o j -> sonic_bind h Jit o t j v = std_bind o t j v.
 Proof. exact (fun h o => proj1 (bind_agree_all h o)). Qed.
@@ -113,6 +114,39 @@ Example C01_bind_agree_example :
   sonic_unmarshal h1 Jit opts_default ex_ty ex_in ex_v0 = Ok ex_out.
 Proof. exact agreement_example_values. Qed.
 Print Assumptions C01_bind_agree_example.
+
+(* The larger fragment: maps with string / integer / TextUnmarshaler keys and `,string` fields (bool, integers,
+   float64, string, json.Number, pointers to them) added, nested arbitrarily.  Extra hypotheses (the no-collision
+   discipline): every object of the document has pairwise distinct keys - as lower-cased texts and as integers -,
+   strings are free of escapes and read as JSON numbers when they start like one, the initial value holds no
+   non-empty map.  Under them no map element and no struct field is decoded twice, which is exactly where sonic
+   (decodes over the existing element: C01_mapmerge_refuted) and encoding/json (fresh zero element) differ. *)
+Theorem C01_bind_agree_maps_quoted_partial : forall (h : bytes -> N) (o : opts) t, frag2 t = true ->
+  forall j v, strict_jv j = true -> guards2 o j -> nomap v = true -> sonic_bind h Jit o t j v = std_bind o t j v.
+Proof. exact (fun h o => proj1 (bind_agree2_all h o)). Qed.
+Print Assumptions C01_bind_agree_maps_quoted_partial.
+
+Theorem C01_bind_agree_maps_quoted : forall (h : bytes -> N) (o : opts) t s v,
+  frag2 t = true -> input_ok o s -> nomap v = true -> (forall j, parse s = Some j -> guards2 o j) ->
+  match parse s with
+  | Some j => sonic_unmarshal h Jit o t s v = std_unmarshal o t s v
+  | None => std_unmarshal o t s v = Err /\
+            (sonic_unmarshal h Jit o t s v = Err \/ skipped_only_structural h o t s v)
+  end.
+Proof. exact bind_agree2_top. Qed.
+Print Assumptions C01_bind_agree_maps_quoted.
+
+Example C01_bind_agree_maps_quoted_nonvacuous : forall o, (o = opts_std \/ o = opts_default) ->
+  frag2 ex2_ty = true /\ input_ok o ex2_in /\ nomap ex2_v0 = true /\ (forall j, parse ex2_in = Some j -> guards2 o j) /\
+  parse ex2_in <> None.
+Proof. exact agreement2_example_hypotheses. Qed.
+Print Assumptions C01_bind_agree_maps_quoted_nonvacuous.
+
+Example C01_bind_agree_maps_quoted_example :
+  sonic_unmarshal h1 Jit opts_std ex2_ty ex2_in ex2_v0 = Ok ex2_out /\ std_unmarshal opts_std ex2_ty ex2_in ex2_v0 = Ok ex2_out /\
+  sonic_unmarshal h1 Jit opts_default ex2_ty ex2_in ex2_v0 = Ok ex2_out.
+Proof. exact agreement2_example_values. Qed.
+Print Assumptions C01_bind_agree_maps_quoted_example.
 
 (* strings made of printable ASCII without backslash and quote satisfy the string guards *)
 Theorem C01_plain_strings_ok : forall o b, forallb plain_byte b = true -> str_ok o b /\ key_ok b.
